@@ -6,7 +6,7 @@ from .vals import (Val, NONE, I, B, R, Z, Func, Closure, Bound, Cls, Builtin, Tu
                    ArgPack, Unsupported, fresh, ref, strv, STRINGS, cls_of)
 from .frontend import ClassInfo
 
-__all__ = ["stdlib_name", "builtin_name", "module_attr", "namedtuple_class", "pk_len", "pk_head", "pk_tail",
+__all__ = ["pk_nth", "stdlib_name", "builtin_name", "module_attr", "namedtuple_class", "pk_len", "pk_head", "pk_tail",
            "pk_cons", "pack_cons", "KwDict", "kwpack_make", "kw_has", "kw_get", "MetricV", "value_attr"]
 
 # ---------------------------------------------------------------------------------------------
@@ -16,6 +16,7 @@ pk_len = z3.Function("pk_len", Val, I)
 pk_head = z3.Function("pk_head", Val, Val)
 pk_tail = z3.Function("pk_tail", Val, Val)
 pk_cons = z3.Function("pk_cons", Val, Val, Val)
+pk_nth = z3.Function("pk_nth", Val, I, Val)
 # **kwargs packs: uninterpreted finite maps from string ids
 kw_has = z3.Function("kw_has", Val, I, B)
 kw_get = z3.Function("kw_get", Val, I, Val)
